@@ -18,7 +18,7 @@ def _norm_attr(attr):
 
 class C16(Machine):
     ID = "C16"
-    FAMILY_WEIGHTS = {"sparse": 4, "dense": 1, "canal": 3, "modular": 3, "maa": 2}
+    FAMILY_WEIGHTS = {"sparse": 4, "dense": 1, "canal": 3, "modular": 3, "maa": 2, "cascade": 2}
     NMAX = {"quick": 6, "thorough": 7}
     FMTS = ("bnet", "aeon", "api")
 
@@ -30,6 +30,14 @@ class C16(Machine):
         sc = {"property": self.ID, "run_seed": run_seed, "tier": tier, "net": net, "config": None, "walk_seed": None, "reorder_seed": None, "ops_seed": run_seed, "params": {}}
         prng = sub_rng(run_seed, "params")
         sc["params"] = {"len": prng.randint(2, 10), "p_fault": prng.choice([0.15, 0.25, 0.4]), "kinds": prng.choice([["pickle"], ["reclaim"], ["evict"], ["pickle", "reclaim", "evict"], ["pickle", "reclaim", "evict"]])}
+        if prng.random() < 0.45:
+            # a non-default configuration must survive the round trip as well: later answers
+            # (limit errors, candidate lists) depend on it
+            from ..netgen import gen_knobs
+
+            sc["config"] = gen_knobs(prng, p=0.4)
+            if prng.random() < 0.5:
+                sc["config"]["max_motifs_per_node"] = prng.choice([1, 2, 3, 4])
         return sc
 
     def fault_op(self, world, rng, kinds):
